@@ -188,6 +188,16 @@ func setUnsignedFieldForInvite(event PDU, inviteState []InviteStrippedState) err
 		if err := event.SetUnsignedField("invite_room_state", inviteState); err != nil {
 			return fmt.Errorf("event.SetUnsignedField: %w", err)
 		}
+		// The stripped state is the inviting server's text. What the room
+		// version's canonical-JSON rule refuses (a fraction, an exponent, an
+		// integer beyond 2^53 in room versions 6+) must not get into the event:
+		// the parser of every server refuses such an event, and the next Sign
+		// of it would panic.
+		if verImpl, err := GetRoomVersion(event.Version()); err == nil {
+			if err := verImpl.CheckCanonicalJSON(event.JSON()); err != nil {
+				return fmt.Errorf("invite_room_state: %w", err)
+			}
+		}
 	}
 
 	return nil
